@@ -1,14 +1,19 @@
 package fox
 
 // Identifiers of the yield points offered to a deterministic simulator when the
-// package is built with the verif tag. They have no effect otherwise.
+// package is built with the verif tag. They have no effect otherwise. The points
+// next to synchronisation primitives (lock, unlock, load, store) are not written in
+// the sources: the simulator's build step inserts them mechanically around every
+// such call of a scratch copy, so that they follow the code wherever it moves.
 const (
-	ptLocked     = iota + 1 // writer lock just taken, root not loaded yet
-	ptBeforeLoad            // before the atomic load of the current tree
-	ptAfterLoad             // after the atomic load of the current tree
-	ptCommit                // Txn.Commit, before the new tree is built and stored
-	ptStored                // Txn.Commit, new tree stored, writer lock still held
-	ptUnlocked              // writer lock released (commit or abort)
-	ptAbort                 // Txn.Abort, before the writer lock is released
-	ptRouteOpts             // NewRoute, route options applied, handler chain not built yet
+	ptLocked       = iota + 1 // a lock was just taken
+	ptBeforeLoad              // before an atomic load
+	ptAfterLoad               // after an atomic load
+	ptCommit                  // Txn.Commit, before the new tree is built and stored
+	ptStored                  // after an atomic store
+	ptUnlocked                // a lock was just released
+	ptAbort                   // Txn.Abort, before the writer lock is released
+	ptRouteOpts               // NewRoute, route options applied, handler chain not built yet
+	ptBeforeUnlock            // before a lock is released
+	ptBeforeStore             // before an atomic store
 )
